@@ -107,8 +107,8 @@ Proof. exact flop_law_lemma. Qed.
    so mce_law applies to it.  FULL statement wanted (channel_list_methods_law): every
    _multichannel_perform method equals the channel list of the per-row method calls over
    flop([self, *args]): proved below as channel_list_methods_law, for every selector. *)
-Theorem channel_list_methods_law_partial : forall base bm ba self mul add st,
-  cl_madd base bm ba self mul add st = multi_new (muladd_new1 base bm ba) [Lst self; mul; add] st.
+Theorem channel_list_methods_law_partial : forall B self mul add st,
+  cl_madd B self mul add st = multi_new (muladd_new1 B) [Lst self; mul; add] st.
 Proof. exact cl_madd_is_multi_new. Qed.
 
 (* --- output units ---------------------------------------------------------------------------- *)
@@ -235,6 +235,7 @@ Definition k (z : Z) := Scalar (K z).
 Definition u (n : nat) := Scalar (U n 0).
 Definition ar (b : Z) := with_rate b RAudio.
 Definition kr (b : Z) := with_rate b RControl.
+Definition BB := mkBases 2 5 3 6 7.     (* bases of + - * neg MulAdd *)
 (* SinOsc.ar([[1, 2], 3], [4, 5, 6]): five units, in this order *)
 Example mce_example :
   observe (multi_new (new1_plain (ar 1) 1) [Lst [Lst [k 1; k 2]; k 3]; Lst [k 4; k 5; k 6]]) [] =
@@ -257,9 +258,9 @@ Proof. vm_compute. reflexivity. Qed.
    gave a 2x2 nest and four MulAdd units where the law (and cl_madd) gives [u0*2+5, u1*3+5], two units. *)
 Example cl_madd_unpatched_violates_law :
   let pre := [mkUnit (ar 1) [k 100; k 0]; mkUnit (ar 1) [k 101; k 0]] in
-  observe (cl_madd 7 3 2 [u 0; u 1] (Lst [k 2; k 3]) (k 5)) pre =
+  observe (cl_madd BB [u 0; u 1] (Lst [k 2; k 3]) (k 5)) pre =
     ORes (Lst [u 2; u 3]) (pre ++ [mkUnit (ar 7) [u 0; k 2; k 5]; mkUnit (ar 7) [u 1; k 3; k 5]]) /\
-  observe (cl_madd_unpatched 7 3 2 [u 0; u 1] (Lst [k 2; k 3]) (k 5)) pre =
+  observe (cl_madd_unpatched BB [u 0; u 1] (Lst [k 2; k 3]) (k 5)) pre =
     ORes (Lst [Lst [u 2; u 3]; Lst [u 4; u 5]])
          (pre ++ [mkUnit (ar 7) [u 0; k 2; k 5]; mkUnit (ar 7) [u 0; k 3; k 5];
                   mkUnit (ar 7) [u 1; k 2; k 5]; mkUnit (ar 7) [u 1; k 3; k 5]]).
@@ -276,9 +277,9 @@ Definition muladd_new_global_rate (base : Z) (input mul add : arg) : M arg :=
             end.
 Example mixed_rate_example :
   let pre := [mkUnit (ar 1) [k 100; k 0]; mkUnit (kr 1) [k 101; k 0]] in
-  observe (muladd_new 7 3 2 (Lst [u 0; u 1]) (k 2) (k 5)) pre =
+  observe (muladd_new BB (Lst [u 0; u 1]) (k 2) (k 5)) pre =
     ORes (Lst [u 2; u 3]) (pre ++ [mkUnit (ar 7) [u 0; k 2; k 5]; mkUnit (kr 7) [u 1; k 2; k 5]]) /\
-  observe (muladd_new 7 3 2 (u 1) (k 2) (k 5)) pre =
+  observe (muladd_new BB (u 1) (k 2) (k 5)) pre =
     ORes (u 2) (pre ++ [mkUnit (kr 7) [u 1; k 2; k 5]]) /\
   observe (muladd_new_global_rate 7 (Lst [u 0; u 1]) (k 2) (k 5)) pre =
     ORes (Lst [u 2; u 3]) (pre ++ [mkUnit (ar 7) [u 0; k 2; k 5]; mkUnit (ar 7) [u 1; k 2; k 5]]).
@@ -286,12 +287,19 @@ Proof. vm_compute. repeat split; reflexivity. Qed.
 (* ChannelList([u0 (ar), u1 (kr)]) * 2 and .lagud: each channel's unit has its operand's rate *)
 Example mixed_rate_ops :
   let pre := [mkUnit (ar 1) [k 100; k 0]; mkUnit (kr 1) [k 101; k 0]] in
-  observe (cl_binop 3 Z.mul (Lst [u 0; u 1]) (k 2)) pre =
+  observe (cl_binop BB OMul (Lst [u 0; u 1]) (k 2)) pre =
     ORes (Lst [u 2; u 3]) (pre ++ [mkUnit (ar 3) [u 0; k 2]; mkUnit (kr 3) [u 1; k 2]]) /\
   observe (mc_perform (MDirect 4) [u 0; u 1] [Lst [k 7; k 8; k 9]; k 5]) pre =
     ORes (Lst [u 2; u 3; u 4])
          (pre ++ [mkUnit (ar 4) [u 0; k 7; k 5]; mkUnit (kr 4) [u 1; k 8; k 5]; mkUnit (ar 4) [u 0; k 9; k 5]]).
 Proof. vm_compute. split; reflexivity. Qed.
+(* explicit zeros and ones: ChannelList([u0, u1]).madd([0, 1, -1], [5, 0, 0]) = [5, u0... ] by
+   MulAdd's shortcuts: mul 0 -> add; mul 1, add 0 -> input; mul -1, add 0 -> -input (one neg unit) *)
+Example falsy_example :
+  let pre := [mkUnit (ar 1) [k 100; k 0]; mkUnit (kr 1) [k 101; k 0]] in
+  observe (cl_madd BB [u 0; u 1] (Lst [k 0; k 1; k (-1)]) (Lst [k 5; k 0; k 0])) pre =
+    ORes (Lst [k 5; u 1; u 2]) (pre ++ [mkUnit (ar 6) [u 0]]).
+Proof. vm_compute. reflexivity. Qed.
 Example out_example_count : nlists (Lst [Lst [u 0; k 0]; Lst [k 0; u 1; k 7]]) = 3.
 Proof. reflexivity. Qed.
 
